@@ -9,6 +9,10 @@ import random
 from . import tlc, c19
 
 QUIRK_WHAT = {
+    "StaleItems": "merge() joins the RECORDED value of an item, not what the location holds at the end of its map, and "
+                  "creates m1's keys first: when a later item of m2 overlaps an earlier one and m1 has the later key, the "
+                  "stale bytes are written last (m1: (p)<-a16; m2: (p+1)<-b8, (p)<-c16: byte p+1 of the merge is "
+                  "[a[8:16], b], c[8:16] is not covered)",
     "TopReadAsBottom": "a memory byte merged to unknown (vecw under widening, top under the complexity threshold or for an "
                        "unknown input) reads back through the mapper as the untouched initial memory: _Mem_read "
                        "(mapper.py:220) takes an unknown part of a zone object (not _is_def) for an unwritten one",
